@@ -852,7 +852,19 @@ func (x *Exec) loopHavoc(st *St, fr *Frame, nodes []ast.Node, key string) {
 func (x *Exec) loopContract(fr *Frame, s ast.Stmt) (*Contract, string) {
 	ord := fr.fi.Loops[s]
 	key := fmt.Sprintf("%s#%d", fr.fi.Key, ord)
-	return x.W.CS.ByKey[key], key
+	if c, ok := x.W.CS.ByKey[key]; ok {
+		return c, key
+	}
+	if i := strings.Index(fr.fi.Key, "["); i >= 0 && x.inst != "" {
+		// loop of a generic function: the template contract carries $T
+		base := fmt.Sprintf("%s#%d", fr.fi.Key[:i], ord)
+		if t, ok := x.W.CS.ByKey[base]; ok {
+			c := instantiateContract(t, x.inst, x.W.CS)
+			x.W.CS.ByKey[key] = c
+			return c, key
+		}
+	}
+	return nil, key
 }
 
 func (x *Exec) localNames(st *St, fr *Frame, extra map[string]*Val) map[string]*Val {
